@@ -651,6 +651,10 @@ def run(fx, tier):
     from c04 import reconnect_discards_buffer_rule
     v.rule('R-DOM', 'bytes buffered from a lost connection are discarded before the next read')
     reconnect_discards_buffer_rule(fx, v, 'C18')
+    # the CONNACK is framed by connect_op itself: the span handed to decode_connack is this packet's body (shared with C19)
+    from c19 import handshake_span_rule
+    v.rule('R-PRE', 'handshake framing: body span anchored at the buffer start, sized by the Remaining Length')
+    handshake_span_rule(fx, v, 'C18')
     v.expect_min('R-SCHEMA', 50, 'decoders × (agreement, property class, scope, short form)')
     v.expect_min('R-TABLE', 34, 'wire formats + 27 property identifiers')
     v.expect_min('R-ARITH', 2, 'varint, length-prefixed string')
